@@ -122,7 +122,7 @@ func (sp specProject) build() *types.Project {
 	return p
 }
 
-var c15Profiles = []string{"p1", "p2", "p3"}
+var c15Profiles = []string{"p1", "p2", "p3", "P1", "p1x"} // names that differ only in case or by a suffix are different profiles
 
 func genSubset(t *rapid.T, label string, from []string, maxN int) []string {
 	var out []string
